@@ -190,7 +190,34 @@ def fp_cases(rng, n):
             '3.0L', '1e308', '1e-308', '4.9e-324', '0x1p-1074', '123456789.125', '7', '-3', '2u', '9007199254740993L', '18446744073709551615UL']
     cases = []
     frac = ['0.5', '0.25f', '-0.5', '0.75L', '0.0', '-0.0', '(0.0/0.0)', '1e-30', '0.9999', '1.5', '-1.5f', '2.5L', '1e300', '0.1', '(1.0/0.0)']
+    CONV = {'unsigned long': ['1e19', '9223372036854775808.0', '18446744073709549568.0', '1.8e19L', '0x1p63', '0x1.fffffffffffffp63', '1.5', '0.99', '9223372036854775807.0L', '4e18'],
+            'long': ['-9.2e18', '9.2e18', '-0x1p63', '0x1.fffffffffffffp62', '-1.5', '2147483648.0', '-0.99L'],
+            'unsigned': ['3e9', '4294967295.0', '2147483648.0f', '4294967295.5L', '0.5', '2147483647.5'],
+            'int': ['-2147483648.0', '2147483647.0', '-2147483648.9', '2147483647.9L', '-1.9f', '1e9f'],
+            'unsigned short': ['65535.9', '40000.0f', '32768.0L', '0.1'], 'short': ['-32768.5', '32767.9L', '300.0f'],
+            'unsigned char': ['255.9', '128.0f', '200.5L'], 'signed char': ['-128.9', '127.5f', '-1.0L'], '_Bool': ['0.5', '1e-30f', '-0.0', '256.0', '0.0L', '1e300']}
     for i in range(n):
+        x0 = rng.random()
+        if x0 < 0.12:
+            # floating constant converted to an integer type in a constant expression (in-range values up to the very edge of the target type)
+            ty = rng.choice(list(CONV))
+            A = rng.choice(CONV[ty])
+            B = rng.choice(['1.0', '1.0L', '1.0f'])
+            form = rng.choice(['(%(t)s)%(a)s', '(%(t)s)(%(a)s * %(b)s)', '%(a)s', '(%(t)s)(%(a)s / %(b)s)', '(%(t)s)+%(a)s'])
+            cexpr = '(' + form % {'t': ty, 'a': A, 'b': B} + ')'
+            rexpr = '(' + form % {'t': ty, 'a': 'f%d_0' % i, 'b': 'f%d_1' % i} + ')'
+            cases.append((i, ty, cexpr, rexpr, [A, B]))
+            continue
+        if x0 < 0.2:
+            # bit-field members of static objects are folded and packed by the compiler, those of automatic objects at run time
+            bt = rng.choice(['unsigned long', 'long', 'unsigned', 'int', 'unsigned short', 'signed char', '_Bool'])
+            mx = {'unsigned long': 64, 'long': 64, 'unsigned': 32, 'int': 32, 'unsigned short': 16, 'signed char': 8, '_Bool': 1}[bt]
+            w1, w2 = rng.choice([1, 2, 7, 8, 9, 31, 32, 33, 40, 63, 64, mx]), rng.choice([1, 3, 8, 17, 32, 33, 47, 64, mx])
+            w1, w2 = min(w1, mx), min(w2, mx)
+            ty = 'struct { %s a : %d; %s b : %d; char c; }' % (bt, w1, bt, w2)
+            A, B = (rng.choice(['-1', '1', '0x123456789abcdefL', '-2', '255', '0x80000000', '-0x7fffffffffffffffL', '5']) for _ in range(2))
+            cases.append((i, ty, '{%s, %s, 3}' % (A, B), '{f%d_0, f%d_1, 3}' % (i, i), [A, B]))
+            continue
         if rng.random() < 0.3:
             # operators with an integer result applied to floating operands (truth value / comparison of values below 1, NaN, infinities)
             A, B, C = (rng.choice(frac + lits[:8]) for _ in range(3))
@@ -224,6 +251,8 @@ def fp_cases(rng, n):
 def lit_type(l):
     if l.startswith('('):
         return 'double'
+    if l.lstrip('-').startswith('0x') and 'p' not in l:
+        return 'long'
     if l.endswith('f'):
         return 'float'
     if l.endswith('UL'):
